@@ -352,19 +352,48 @@ fn generate(full: bool) -> String {
                 if !full && !(matches!(k1, K::Read | K::Write | K::OptWrite) && matches!(k2, K::Read | K::Write | K::OptRead | K::OptWrite)) {
                     continue;
                 }
-                for shape in 0..3 {
+                for shape in 0..4 {
                     let a = T::Leaf(k1, 0);
                     let b = T::Leaf(k2, 0);
                     let t = match shape {
                         0 => T::Tup(vec![a, b]),
                         1 => T::Tup(vec![a, T::Leaf(K::Read, 1), b]),
-                        _ => T::Tup(vec![T::Tup(vec![a, T::Leaf(K::Read, 1)]), T::Tup(vec![T::Leaf(K::Unit, 0), T::Tup(vec![b])])]),
+                        2 => T::Tup(vec![T::Tup(vec![a, T::Leaf(K::Read, 1)]), T::Tup(vec![T::Leaf(K::Unit, 0), T::Tup(vec![b])])]),
+                        // the repeated member is followed by another one inside the same nested member
+                        _ => T::Tup(vec![a, T::Tup(vec![b, T::Leaf(K::Write, 1)])]),
                     };
                     let mut sx = String::new();
                     let mut e = Exp::default();
                     ty(&t, &mut sx, &mut e);
                     e.self_conflict = true;
                     g.case("self-conflicting", &sx, &e, 2, "");
+                }
+            }
+        }
+    }
+    // (v-b) one resource named twice in compatible (shared) ways, the repeat sitting in front of further
+    //       members of the same nested member: the declaration is the union, nothing after the repeat is lost
+    {
+        let rk = [K::Read, K::ReadExpect, K::OptRead];
+        for k1 in rk {
+            for k2 in rk {
+                if !full && k1 != K::Read && k2 != K::Read {
+                    continue;
+                }
+                for shape in 0..5 {
+                    let a = T::Leaf(k1, 0);
+                    let b = T::Leaf(k2, 0);
+                    let t = match shape {
+                        0 => T::Tup(vec![a, b]),
+                        1 => T::Tup(vec![a, T::Tup(vec![b, T::Leaf(K::Read, 1)])]),
+                        2 => T::Tup(vec![a, T::Tup(vec![b, T::Leaf(K::Write, 1)])]),
+                        3 => T::Tup(vec![a, T::Tup(vec![T::Leaf(K::Read, 1), b, T::Leaf(K::OptWrite, 2)])]),
+                        _ => T::Tup(vec![T::Tup(vec![T::Leaf(K::Write, 1), a]), T::Tup(vec![b, T::Leaf(K::Read, 2)]), T::Leaf(K::Write, 3)]),
+                    };
+                    let mut sx = String::new();
+                    let mut e = Exp::default();
+                    ty(&t, &mut sx, &mut e);
+                    g.case("repeated-resource", &sx, &e, 4, "");
                 }
             }
         }
